@@ -203,11 +203,6 @@ def run_roundtrip(case, ctx):
     warnings.simplefilter("ignore")
     names = rb.field_names()
     fam = case["cfg"]["family"]
-    if fam == "trace" and case["backward"]:
-        # TRACE's encounter (BS) step does not support dt<0 ("TODO: Support backwards integrations" in the
-        # source; crashes or freezes the step) - recorded as a known finding under C08/C01, not searched here.
-        ctx.skip("trace with dt<0 (known finding recorded under C08)")
-        return
     sim = build(case)
     try:
         if case["k"]:
